@@ -5,6 +5,7 @@ import (
 	"go/types"
 	"runtime/debug"
 	"strings"
+	"time"
 
 	"golang.org/x/tools/go/ssa"
 )
@@ -162,6 +163,9 @@ func (e *Exec) Concretize(t *Term, isLen bool, what string) int64 {
 	var vals []uint64
 	block := inB
 	for len(vals) <= 4096 {
+		if dl := e.eng.deadline; !dl.IsZero() && time.Since(dl) > 30*time.Second {
+			e.endPath("not-explored(path-budget)", "value enumeration still running 30 s after the exploration budget ended")
+		}
 		var v uint64
 		if len(vals) == 0 && e.modelOK {
 			if bv, _ := tc.Eval(block, e.model, nil); bv != 0 {
